@@ -17,3 +17,4 @@ open Fzf.Props.C15
 #print axioms C15_max_min_are_source
 #print axioms C15_hidden_input_rows
 #print axioms C15_shown_input_first_row
+#print axioms C15_header_first
